@@ -86,6 +86,9 @@ class LayoutFolder(Folder):
         axes = a[1] if len(a) > 1 else kw.get("axes")
         if axes is None:
             axes = list(range(p.n))[::-1]
+        axes = [self._ax(p, x) for x in axes]
+        if sorted(axes) != list(range(p.n)):
+            raise Raised("ValueError", None)  # numpy: axes don't match array
         return Perm(p.n, [p.src[i] for i in axes], [p.flip[i] for i in axes])
 
     def c_np_moveaxis(self, a, kw):
